@@ -2096,7 +2096,15 @@ class TensorDictBase(MutableMapping):
             torch.Size([3])
 
         """
-        _set_max_batch_size(self, batch_dims)
+        # the batch sizes of the nested tensordicts are assigned first: if an assignment is
+        # refused on the way (a lazily stacked nested tensordict, a dim name clash) nothing
+        # must have changed
+        snapshot = self._nested_meta_snapshot()
+        try:
+            _set_max_batch_size(self, batch_dims)
+        except Exception:
+            self._nested_meta_restore(snapshot)
+            raise
         return self
 
     def auto_device_(self) -> T:
